@@ -16,7 +16,7 @@ ASSUMPTIONS = [
     "lengths compared within 1e-4 relative (float32 env vs float64 reference); reward within 1e-5",
     "policies are untrained small networks (embed 32, 1 layer): near-uniform move distributions over the moves their own masks admit",
 ]
-REQUIRED_COUNTERS = ["c09_solution_accessor_checks", "c09_torchrl_steps", "episodes", "c09_transitions", "c09_exhaustive_moves", "c09_policy_steps", "c09_step_to_solution", "c09_step_to_better_solution", "c09_improving_steps", "c09_non_improving_after_improvement"]
+REQUIRED_COUNTERS = ["c09_step_to_own_best_uncopied", "c09_solution_accessor_checks", "c09_torchrl_steps", "episodes", "c09_transitions", "c09_exhaustive_moves", "c09_policy_steps", "c09_step_to_solution", "c09_step_to_better_solution", "c09_improving_steps", "c09_non_improving_after_improvement"]
 MIN_NONTRIVIAL = {"quick": 30000, "thorough": 300000}
 WORKERS = {"quick": 14, "thorough": 16}
 BUDGET_S = {"quick": 500, "thorough": 3000}
@@ -64,6 +64,8 @@ def cases(tier, seed):
             c["cfg"]["init"] = "greedy"
         if c["kind"] == "policy" and rnd2.random() < 0.4:
             c["phase"] = "train"  # training-phase decoding (log-likelihood of the sampled move is gathered)
+        if c["kind"] == "sampler" and c.get("to_best_every") and rnd2.random() < 0.6:
+            c["alias_best"] = True
         if c["kind"] == "sampler" and rnd2.random() < 0.3:
             c["cfg"]["torchrl"] = True  # documented TorchRL mode: the stepped-from state must survive the step
     return out
